@@ -105,6 +105,8 @@ pub struct LawOut {
     pub vtags: Vec<String>,
     /// stuck-source bursts executed (geometry)
     pub bursts: u64,
+    /// candidate-lattice runs executed (geometry)
+    pub lattice_runs: u64,
     pub digest: u64,
     pub skipped_tests: u64,
 }
@@ -836,6 +838,84 @@ pub fn geometry_test(spec: &DistSpec, n: u64, seed: u64) -> Result<(LawOut, u64)
         total.samples += bursts;
         total.bursts = bursts;
     }
+    // ---- candidate lattice (fault kind L2): the acceptance test itself ------------------
+    // All words of ONE candidate are injected so that the candidate lies at a chosen radius
+    // and direction: just outside the unit circle / sphere it must be rejected (the call goes
+    // on and still returns a valid point), well inside -- including on the axes -- it must be
+    // accepted at once (exactly one candidate's words are consumed).  A fast-accept region
+    // with a rounded constant, or an over-wide exclusion around an axis, is a two-word
+    // event that neither single-word faults nor identical-word bursts reach.
+    {
+        let dim = if matches!(spec.family, Family::UnitBall) { 3 } else { 2 };
+        // Uniform(-1, 1): x = 2 m 2^-52 - 1 with m the top 52 bits (f32: top 23 bits)
+        let word_of = |x: f64| -> u64 {
+            let m = (((x + 1.0) * 0.5) * (1u64 << 52) as f64).round().clamp(0.0, ((1u64 << 52) - 1) as f64) as u64;
+            m << 12
+        };
+        let res_x = if f32_ { 2.0_f64.powi(-22) } else { 2.0_f64.powi(-51) };
+        let mut lattice_runs = 0u64;
+        let radii_out = [1.0 + 1e-3, 1.0 + 1e-5, 1.0 + 3e-6, 1.0 + 1e-6];
+        let radii_in = [1.0 - 1e-3, 1.0 - 1e-5, 0.75, 0.5, 1e-2, 1e-4];
+        let n_dir = 720;
+        for di in 0..n_dir {
+            // directions: a regular grid that contains the axes and the diagonals exactly
+            let th = 2.0 * PI * di as f64 / n_dir as f64;
+            let (c, s_) = (th.cos(), th.sin());
+            let dirs: Vec<[f64; 3]> = if dim == 2 {
+                vec![[c, s_, 0.0]]
+            } else {
+                vec![[c, s_, 0.0], [c * 0.6, s_ * 0.6, 0.8], [0.0, c, s_], [c * 0.8, s_ * 0.8, -0.6]]
+            };
+            for d in dirs {
+                for (outside, r) in radii_out.iter().map(|r| (true, *r)).chain(radii_in.iter().map(|r| (false, *r))) {
+                    // snap tiny components to exactly 0 (the axes)
+                    let xs: Vec<f64> = (0..dim).map(|i| if (d[i] * r).abs() < 1e-12 { 0.0 } else { d[i] * r }).collect();
+                    if xs.iter().any(|x| x.abs() >= 1.0) {
+                        continue; // not a candidate the cube can produce
+                    }
+                    // what the sampler will see after quantisation
+                    let q: Vec<f64> = xs.iter().map(|x| ((word_of(*x) >> 12) as f64) * 2.0_f64.powi(-51) - 1.0).collect();
+                    let q: Vec<f64> = if f32_ { q.iter().map(|x| (((x + 1.0) * 0.5 * 8388608.0).floor() / 8388608.0) * 2.0 - 1.0).collect() } else { q };
+                    let r2: f64 = q.iter().map(|x| x * x).sum();
+                    // only candidates whose side of the boundary survives quantisation
+                    if outside && r2 < 1.0 + 8.0 * res_x || !outside && r2 > 1.0 - 8.0 * res_x {
+                        continue;
+                    }
+                    if !outside && r2 == 0.0 {
+                        continue; // the origin has no direction (UnitCircle rejects it)
+                    }
+                    let faults: Vec<crate::simrng::Fault> = (0..dim as u64).map(|pos| crate::simrng::Fault { pos, inject: Inject::Word(word_of(xs[pos as usize])) }).collect();
+                    let mut rng = SimRng::with_faults(mix(&[seed, 0x1A771CE, di as u64]), faults);
+                    rng.budget = 100_000;
+                    lattice_runs += 1;
+                    let verdict = match guarded(|| obj.sample(&mut rng)) {
+                        Caught::Ok(o) => match support::check(spec, &o) {
+                            Some((cl, dt)) => Some((cl.to_string(), dt)),
+                            None => {
+                                if !outside && rng.pos != dim as u64 {
+                                    Some(("law(candidate-lattice)".to_string(), format!("a candidate inside the unit ball (r^2 = {r2:.9}) was not accepted: the call consumed {} words instead of {dim}", rng.pos)))
+                                } else if outside && rng.pos == dim as u64 {
+                                    Some(("law(candidate-lattice)".to_string(), format!("a candidate outside the unit ball (r^2 = {r2:.9}) was accepted (only {dim} words consumed)")))
+                                } else {
+                                    None
+                                }
+                            }
+                        },
+                        Caught::Panic { msg, loc } => Some(("panic".to_string(), format!("{msg} @ {loc}"))),
+                        Caught::Budget(_) => Some(("word-budget".to_string(), "word budget exceeded".to_string())),
+                    };
+                    total.words += rng.pos;
+                    if let Some((cl, dt)) = verdict {
+                        total.samples += lattice_runs;
+                        total.violation = Some((cl, format!("{label}: candidate {q:?} injected as the first {dim} words: {dt}")));
+                        return Ok((total, tests));
+                    }
+                }
+            }
+        }
+        total.samples += lattice_runs;
+        total.lattice_runs = lattice_runs;
+    }
     for (si, (name, pick)) in scalars.iter().enumerate() {
         let sub_label = format!("{label}: {name}");
         let mut draw = |rng: &mut SimRng, buf: &mut [f64]| -> Result<(), (String, String)> {
@@ -1244,6 +1324,8 @@ impl Engine for LawEngine {
                     res.digest = o.digest;
                     res.inj("F9-stuck-source-burst", o.bursts);
                     res.fired("F9-stuck-source-burst", o.bursts);
+                    res.inj("L2-candidate-lattice", o.lattice_runs);
+                    res.fired("L2-candidate-lattice", o.lattice_runs);
                     res.samples.push(json!({"sampler": spec.label(), "N": n, "scalar_tests": tests, "worst_dkw_ratio": o.info.worst_dkw_ratio, "worst_cell_margin": o.info.worst_cell_margin}));
                     let vt = o.vtags.clone();
                     if let Some((c, d)) = o.violation {
